@@ -30,11 +30,35 @@ type vfSerCase struct {
 	ContText []vfTOp `json:"cont_text,omitempty"`
 	ContMeta []vfMOp `json:"cont_meta,omitempty"`
 	ContHyb  []vfYOp `json:"cont_hyb,omitempty"`
+	// the reader handed to ReadFrom returns at most Chunk bytes per Read call (0: whatever is asked
+	// for): io.Reader allows short reads, and segments are read through gzip, which produces them
+	Chunk int `json:"reader_chunk,omitempty"`
+}
+
+// vfChunkReader returns at most n bytes per Read and offers nothing but Read.
+type vfChunkReader struct {
+	r io.Reader
+	n int
+}
+
+func (c *vfChunkReader) Read(p []byte) (int, error) {
+	if len(p) > c.n {
+		p = p[:c.n]
+	}
+	return c.r.Read(p)
+}
+
+func vfMaybeChunked(r io.Reader, chunk int) io.Reader {
+	if chunk <= 0 {
+		return r
+	}
+	return &vfChunkReader{r, chunk}
 }
 
 func vfSerGen(rt *rapid.T, kinds []string) vfSerCase {
 	c := vfSerCase{Kind: rapid.SampledFrom(kinds).Draw(rt, "ser_kind")}
 	c.RemoveAll = rapid.IntRange(0, 9).Draw(rt, "remove_all") == 0
+	c.Chunk = rapid.SampledFrom([]int{0, 0, 1, 2, 3, 5, 7, 13, 64}).Draw(rt, "reader_chunk")
 	switch c.Kind {
 	case "bm25":
 		t := vfC03Gen(rt)
